@@ -264,7 +264,7 @@ pub fn run(ctx: &Ctx) -> PropReport {
     let mut rep = PropReport::new("C13", "exploration");
     let seeds = ctx.tier.pick(1u64, 4u64);
     let seed = ctx.seed;
-    rep.parts.push(run_enum(
+    rep.part(|| run_enum(
         ctx,
         "deterministic",
         "bounded-exhaustive: players 1..=4 x window 1..=10 x check distance 0..=11 x delay {0,1,3,7} x sparse on/off (invalid combinations must be rejected with InvalidRequest, valid ones run 120 frames of generated inputs with a deterministic game): never MismatchedChecksum, request lists pass the C02 executor, all inputs Confirmed and equal to the input submitted delay frames earlier (default before); non-trivial = an invalid config (rejection checked) or a valid run with >=1 verified Load (or check distance 0)",
@@ -275,7 +275,7 @@ pub fn run(ctx: &Ctx) -> PropReport {
     ));
     let cases = detect_cases(ctx.tier.pick(24, 70));
     let n = cases.len() as u64;
-    rep.parts.push(run_enum(
+    rep.part(|| run_enum(
         ctx,
         "detect",
         "bounded-exhaustive: players 1..=2 x window 3..=10 x check distance 2..window x delay {0,3} x perturbed frame F x pattern {every simulation differs, only the 2nd, from the 3rd on, only the 1st}: if two simulations of F were observed to produce different states then MismatchedChecksum must be reported at a call with current_frame <= F+cd+2 and min(mismatched_frames) == F+1; if none differed, no error; non-trivial = states really differed",
